@@ -75,6 +75,7 @@ type Exec struct {
 	pools     map[*Object]Value
 	tainted   bool
 	task      int                       // 0 = main goroutine, k>0 = k-th spawned task of the current fork/join region
+	lockDepth int                       // > 0 while a mutex is held or a sync.Once body runs
 	poolTask  map[*Object]int           // fork/join task that Put the pooled object (0 = outside a region)
 	poolThread map[*Object]int          // analysis thread that Put the pooled object
 	hbSeg     *hbSegment                // happens-before analysis: segment being recorded (nil outside analysed threads)
@@ -109,10 +110,10 @@ func (x *Exec) write(o *Object, i int, v Value) {
 		x.e.journal = append(x.e.journal, jent{o, i, o.rawGet(i)})
 	}
 	o.rawSet(i, v)
-	if x.task > 0 && !x.atomicOp && x.e.RaceCheck {
+	if x.task > 0 && !x.atomicOp && x.lockDepth == 0 && x.e.RaceCheck {
 		x.taskW[x.task-1][jkey{o, i}] = true
 	}
-	if x.hbSeg != nil && !x.atomicOp {
+	if x.hbSeg != nil && !x.atomicOp && x.lockDepth == 0 {
 		x.hbSeg.w[jkey{o, i}] = true
 	}
 }
@@ -125,10 +126,10 @@ func (x *Exec) read(o *Object, i int) Value {
 	if v == nil {
 		v = x.e.zeroLeaf(o.Leaf[i%len(o.Leaf)])
 	}
-	if x.task > 0 && !x.atomicOp && x.e.RaceCheck {
+	if x.task > 0 && !x.atomicOp && x.lockDepth == 0 && x.e.RaceCheck {
 		x.taskR[x.task-1][jkey{o, i}] = true
 	}
-	if x.hbSeg != nil && !x.atomicOp {
+	if x.hbSeg != nil && !x.atomicOp && x.lockDepth == 0 {
 		x.hbSeg.r[jkey{o, i}] = true
 	}
 	return v
